@@ -270,6 +270,21 @@ func ZZ_C16_Schema(shapeA, shapeB, shared int) {
 // without a table column is rejected.
 func ZZ_C16_Missing(shape, which int) {
 	ig := zzShape("a", "t1", shape, 0, 0)
+	if which >= 3 {
+		// several selected inputs / block fields of which a LATER one lacks its column
+		ig = Integration{Name: "a", Enabled: true, Table: wpg.Table{Name: "t1"}}
+		ig.Event = dig.Event{Name: "Ev", Type: "event", Inputs: []dig.Input{
+			{Name: "a", Type: "address", Indexed: true, Column: "c_a"},
+			{Name: "b", Type: "uint256", Column: "c_b"},
+			{Name: "c", Type: "uint256", Column: "c_c"}}}
+		ig.Block = []dig.BlockData{{Name: "log_addr", Column: "addr"}, {Name: "block_time", Column: "bt"}}
+		missing := []string{"c_b", "c_c", "bt"}[which-3]
+		for _, c := range []string{"c_a", "c_b", "c_c", "addr", "bt"} {
+			if c != missing {
+				ig.Table.Columns = append(ig.Table.Columns, wpg.Column{Name: c, Type: "bytea"})
+			}
+		}
+	}
 	switch which {
 	case 0: // drop the column of the first user field
 		ig.Table.Columns = ig.Table.Columns[1:]
